@@ -60,6 +60,18 @@ def _const(node, sc):
         return None
 
 
+def _equality(fn, n, par):
+    """is the comparison n an equality test?  `a == b`, or `a != b` as the test of a guard clause
+    `if a != b: return False`.  Any other use of `!=` is not the code the model describes."""
+    if isinstance(n.ops[0], ast.Eq):
+        return True
+    p = par.get(id(n))
+    if (isinstance(p, ast.If) and p.test is n and len(p.body) == 1 and isinstance(p.body[0], ast.Return)
+            and isinstance(p.body[0].value, ast.Constant) and p.body[0].value.value is False):
+        return True
+    raise TranslateError("%s: names compared with `!=` outside a guard clause `if a != b: return False`" % fn.name)
+
+
 # --------------------------------------------------------------------------- x86 alias groups
 def _group_table(v):
     """list of groups (each a list, or a set) if v is a table of register-name groups"""
@@ -191,11 +203,12 @@ def x86_drop(fn, sc):
     if len(drops) != 1:
         raise TranslateError("x86 is_reg_dependend_of: slices differ")
     compared = False
+    par = _parents(fn)
     for n in ast.walk(fn):
         if isinstance(n, ast.Compare) and len(n.ops) == 1 and isinstance(n.ops[0], (ast.Eq, ast.NotEq)):
             l, _ = sc.deref(n.left)
             r, _ = sc.deref(n.comparators[0])
-            if l in slices and r in slices and l is not r:
+            if l in slices and r in slices and l is not r and _equality(fn, n, par):
                 compared = True
     if not compared:
         raise TranslateError("x86 is_reg_dependend_of: the two name slices are not compared with each other")
@@ -283,10 +296,11 @@ def a64_fold(fn, sc):
         return None
 
     kinds = set()
+    par = _parents(fn)
     for n in ast.walk(fn):
         if isinstance(n, ast.Compare) and len(n.ops) == 1 and isinstance(n.ops[0], (ast.Eq, ast.NotEq)):
             kl, kr = kind(n.left), kind(n.comparators[0])
-            if kl and kr:
+            if kl and kr and _equality(fn, n, par):
                 if kl != kr:
                     raise TranslateError("AArch64 is_reg_dependend_of: the two names are folded differently")
                 kinds.add(kl.split(":")[0])
